@@ -287,8 +287,36 @@ for _dp in range(0, MAXD + 1):
         _make_roundtrip(_dp, _dq)
 
 
+def _rfc3986(base, ref):
+    segs = [] if ref.startswith("/") else [s for s in base.split("/") if s]
+    for s in ref.split("/"):
+        if s in ("", "."):
+            continue
+        if s == "..":
+            if segs:
+                segs.pop()
+            continue
+        segs.append(s)
+    return "/" + "/".join(segs)
+
+
 def _make_dotseg(depth, ref, want_fn):
-    @contract("C19", "C19.opc.packuri.PackURI.from_rel_ref[depth=%d,%s]" % (depth, ref))
+    def _replay(model, rec):
+        from pptx.opc.packuri import PackURI
+
+        dirs = [str(model.get("b_d%d" % i) or "d%d" % i) for i in range(depth)]
+        t = str(model.get("target") or "t")
+        base = "/" + "/".join(dirs)
+        r = ref[:-1] + t if ref.endswith("t") else t + "/."
+        try:
+            got = PackURI.from_rel_ref(base, r)
+        except Exception as e:
+            return {"confirmed": True, "witness_class": "from-rel-ref", "detail": "from_rel_ref(%r, %r) raised %r" % (base, r, e)}
+        if got != _rfc3986(base, r):
+            return {"confirmed": True, "witness_class": "from-rel-ref", "detail": "from_rel_ref(%r, %r) = %r, RFC 3986 path resolution gives %r" % (base, r, str(got), _rfc3986(base, r))}
+        return {"confirmed": False, "detail": "from_rel_ref(%r, %r) = %r as RFC 3986 gives" % (base, r, str(got))}
+
+    @contract("C19", "C19.opc.packuri.PackURI.from_rel_ref[depth=%d,%s]" % (depth, ref), replay=_replay)
     def body(c):
         """references containing '.', '..' or a root-absolute path resolve as RFC 3986 path resolution does."""
         from pptx.opc.packuri import PackURI
@@ -299,7 +327,8 @@ def _make_dotseg(depth, ref, want_fn):
         for d in dirs:
             bp += ["/", d]
         base = _mkstr(bp) if dirs else "/"
-        relp = {"./t": ["./", t], "../t": ["../", t], "/abs/t": ["/abs/", t], "a/../t": ["a/../", t], "../../t": ["../../", t], "t/.": [t, "/."], ".//t": [".//", t]}[ref]
+        relp = {"./t": ["./", t], "../t": ["../", t], "/abs/t": ["/abs/", t], "a/../t": ["a/../", t], "../../t": ["../../", t], "t/.": [t, "/."], ".//t": [".//", t],
+                "/abs/../t": ["/abs/../", t], "/abs/./t": ["/abs/./", t], "/abs//t": ["/abs//", t], "/../t": ["/../", t]}[ref]
         out = c.call(PackURI.from_rel_ref, base, _mkstr(relp))
         if out.raised:
             c.fails("never_raises", "raised %s" % out.exc)
@@ -325,6 +354,11 @@ for _d in range(0, 4):
     _make_dotseg(_d, "../../t", lambda dirs, t: _join(dirs[:-2] + [t]) if len(dirs) >= 2 else _join([t]))
     _make_dotseg(_d, "t/.", lambda dirs, t: _join(dirs + [t]))
     _make_dotseg(_d, ".//t", lambda dirs, t: _join(dirs + [t]))
+    # a root-absolute reference is normalised like any other
+    _make_dotseg(_d, "/abs/../t", lambda dirs, t: _join([t]))
+    _make_dotseg(_d, "/abs/./t", lambda dirs, t: _mkstr(["/abs/", t]))
+    _make_dotseg(_d, "/abs//t", lambda dirs, t: _mkstr(["/abs/", t]))
+    _make_dotseg(_d, "/../t", lambda dirs, t: _join([t]))
 
 
 # --------------------------------------------------------------------------------------------
@@ -385,15 +419,28 @@ def _posixpath_probe(tier="quick", seed=0):
             rel = PackURI(q).relative_ref(base)
             if PackURI.from_rel_ref(base, rel) != q:
                 bad = bad or "P=%r Q=%r: relative_ref %r resolves to %r" % (p, q, rel, PackURI.from_rel_ref(base, rel))
-            for ref in ("./" + q[1:], "../x", "/abs/x", "a/../b", ".//c"):
+            for ref in ("./" + q[1:], "../x", "/abs/x", "a/../b", ".//c", "/abs/../x", "/abs/./x", "/abs//x", "/../x", "/a/b/../../x/./y", q + "/../z"):
                 if PackURI.from_rel_ref(base, ref) != resolve(base, ref):
                     bad = bad or "from_rel_ref(%r, %r) = %r, RFC 3986 gives %r" % (base, ref, PackURI.from_rel_ref(base, ref), resolve(base, ref))
-    for s in ("", "ppt/slides/slide1.xml", "x"):
+    for s in ("", "ppt/slides/slide1.xml", "x", "\\ppt\\slides\\slide1.xml", "\\", " /ppt/x.xml", "./ppt/x.xml", "ppt\\x.xml", "\\/x"):
         try:
             PackURI(s)
             bad = bad or "PackURI(%r) accepted" % s
         except (ValueError, IndexError):
             pass
+    # a part name is taken as given: characters that mean something elsewhere (back-slash, blank, percent, upper case, dots, unicode,
+    # a trailing dot, doubled extension) are part of the name
+    for n in ("/ppt/media/a\\b.bin", "/ppt/My Slide 1.xml", "/ppt/%20x.xml", "/PPT/Slides/SLIDE1.XML", "/ppt/a..b/c.d.e", "/ppt/\u00e9t\u00e9.xml", "/ppt/x.", "/ppt/.hidden",
+              "/ppt/slides/slide1.xml.rels.xml", "/a b/c d.e f", "/ppt/x;y=z.xml", "/ppt/~x.xml", "/ppt/x+y.xml"):
+        evals += 1
+        try:
+            u = PackURI(n)
+        except Exception as e:
+            bad = bad or "PackURI(%r) raised %r" % (n, e)
+            continue
+        dir_, _, fn = n.rpartition("/")
+        if str(u) != n or u.membername != n[1:] or u.filename != fn or u.baseURI != (dir_ or "/") or u.rels_uri != (dir_.rstrip("/") + "/_rels/" + fn + ".rels"):
+            bad = bad or "PackURI(%r): str %r, membername %r, filename %r, baseURI %r, rels_uri %r" % (n, str(u), u.membername, u.filename, u.baseURI, u.rels_uri)
     ob = {"name": "C19.posixpath_probe", "base": "C19.posixpath_probe", "kind": "bounded", "status": "refuted" if bad else "discharged", "backend": "native", "time": 0, "path": 0}
     if bad:
         ob["replay"] = {"confirmed": True, "witness_class": "packuri-native", "detail": bad}
